@@ -1040,6 +1040,10 @@ func main() {
 		search(a, pool)
 		return
 	}
+	if mode == "admit" {
+		admissionMode(a, pool)
+		return
+	}
 	out, err := hx.NewOut(a["ops"], a["obs"])
 	if err != nil {
 		panic(err)
